@@ -116,6 +116,36 @@ def _case_h1(rng, tier, n):
             "sched": {"seed": rng.randrange(1 << 30), "net_jitter": rng.choice([None, None, [0.3, 3]])}}
 
 
+def _case_h1_slow_close(rng, tier, n):
+    """A response after which the server itself closes the connection (HTTP/1.0, or the last request the connection may carry), towards a
+    client that takes what it is sent slowly - more slowly than keep_alive_timeout in all, but steadily.  The close has to wait for it:
+    what the transport still holds when the server closes is part of the response.  (asyncio: the transport buffers; a trio stream has
+    handed everything to the kernel before send_all() returns.)"""
+    version = rng.choice(["1.0", "1.1"])
+    T = 1.0
+    config = {"keep_alive_timeout": T}
+    if version == "1.1":
+        config["keep_alive_max_requests"] = 1
+    tag = n * 10
+    req = G.gen_request(rng, tag, version, tier, body_sizes=[0], methods=["GET"])
+    resp = gen_resp(rng, tag, tier, False, "GET")
+    if resp["total"] < 20000:
+        resp["sizes"] = list(resp["sizes"]) + [rng.choice([20000, 60000])]
+        resp["total"] = sum(resp["sizes"])
+        resp["headers"] = [h for h in resp["headers"] if h[0] != b"content-length"]
+        resp["cl"] = False
+    k = rng.choice([6, 8, 12])
+    step = (resp["total"] + resp["total"] // 50 + 4000) // k + 1  # (chunked framing and the head included)
+    client = [["pause"], ["feed", G.serialize_h1(req)], ["settle"]]
+    for _ in range(k + 2):
+        client += [["advance", rng.choice([0.3, 0.45])], ["take", step]]
+    client += [["settle"]]
+    return {"family": "h1.%s.slow-reader-at-close" % version, "backends": ["asyncio"], "config": config, "conn": {"write_buffer": 1 << 22},
+            "apps": {"default": [["recv_until_end"], ["respond", 200, [], b"d"]], "by_tag": {str(tag): resp_script(resp)}},
+            "client": client, "truth": {"requests": [req], "responses": [resp], "proto": "h1"},
+            "sched": {"seed": rng.randrange(1 << 30)}}
+
+
 def _case_h2(rng, tier, n, h2c=False):
     nreq = 1 if h2c else rng.choice([1, 2, 3, 4])
     tls = (not h2c) and rng.random() < 0.5
@@ -242,6 +272,8 @@ def _gen(rng, tier):
         r = rng.random()
         if i % 100 == 7:
             yield _case_h2_client_goaway(rng, tier, i)
+        elif i % 100 == 57:
+            yield _case_h1_slow_close(rng, tier, i)
         elif r < 0.45:
             yield _case_h1(rng, tier, i)
         elif r < 0.93:
